@@ -227,7 +227,7 @@ impl Check for C08 {
             idx += 1;
         }
         let mut r = g.rng(8);
-        let n = g.count(2_000, 200_000);
+        let n = g.count(8_000, 800_000);
         for _ in 0..n {
             emit(Case::with("f64-random", vec![], &[r.next() as i64, 512]));
         }
@@ -235,7 +235,7 @@ impl Check for C08 {
         for _ in 0..n {
             emit(Case::with("wide-ints", vec![], &[r.next() as i64, 512]));
         }
-        let n = g.count(1_500, 150_000);
+        let n = g.count(6_000, 600_000);
         for _ in 0..n {
             emit(Case::with("raw", vec![], &[r.next() as i64, 256]));
         }
